@@ -686,6 +686,29 @@ func drawSchemaCase(t *rapid.T) genCase {
 		}
 		sort.Slice(f.PublicDependency, func(a, b int) bool { return f.PublicDependency[a] < f.PublicDependency[b] })
 	}
+	// sometimes every later file publicly imports the first one (siblings forwarding the same symbols)
+	if len(files) >= 3 && rapid.IntRange(0, 4).Draw(t, "fan-in") == 4 {
+		for _, f := range files[1:] {
+			at := -1
+			for i, d := range f.GetDependency() {
+				if d == files[0].GetName() {
+					at = i
+				}
+			}
+			if at < 0 {
+				f.Dependency = append(f.Dependency, files[0].GetName())
+				at = len(f.Dependency) - 1
+			}
+			pub := false
+			for _, i := range f.GetPublicDependency() {
+				pub = pub || int(i) == at
+			}
+			if !pub {
+				f.PublicDependency = append(f.PublicDependency, int32(at))
+				sort.Slice(f.PublicDependency, func(a, b int) bool { return f.PublicDependency[a] < f.PublicDependency[b] })
+			}
+		}
+	}
 	// Go packages: option go_package in several spellings, or left to an M parameter
 	needM := map[string]string{}
 	for i, f := range files {
@@ -932,7 +955,7 @@ func TestSchemaRequests(t *testing.T) {
 		Check:      checkGen,
 		NonTrivial: func(c genCase) bool { return classify(c).nontrivial },
 		Classes:    func(c genCase) []string { return classify(c).classes },
-		Quick:      90, Thorough: 400,
+		Quick:      120, Thorough: 400,
 	})
 }
 
@@ -944,6 +967,6 @@ func TestLinkedRequests(t *testing.T) {
 		Check:      checkGen,
 		NonTrivial: func(c genCase) bool { return classify(c).nontrivial },
 		Classes:    func(c genCase) []string { return classify(c).classes },
-		Quick:      8, Thorough: 40,
+		Quick:      10, Thorough: 40,
 	})
 }
